@@ -10,11 +10,24 @@ import (
 	"time"
 )
 
-func runLemmas(verbose bool) int { return 0 }
-
-func (e *Env) applyLemma(c *specCtx, cl *Clause) {
-	e.errorf("lemma calls not implemented yet")
+func runLemmas(verbose bool) int {
+	bad := 0
+	for _, q := range lemmaObligations() {
+		oc := discharge(q, fullPrelude(), 20, true)
+		fmt.Printf("%-12s %-8s %s\n", oc.Status, oc.By, q.Ob.Name)
+		for _, r := range oc.Results {
+			fmt.Printf("    %-7s %-8s %.2fs\n", r.Solver, r.Verdict, r.Secs)
+		}
+		if oc.Status != "discharged" {
+			bad++
+		}
+	}
+	if bad > 0 {
+		return 1
+	}
+	return 0
 }
+
 
 // replayTargets: property -> (test file in /verif/replay, package dir in /repo, test name)
 var replayTargets = map[string][3]string{}
